@@ -647,8 +647,15 @@ impl Check for C15Check {
     }
     fn shard(&self, cx: &mut Ctx) {
         while !cx.out_of_time() {
-            let (c, l) = gen::pick_geom(&mut cx.rng, cx.tier);
+            let (mut c, mut l) = gen::pick_geom(&mut cx.rng, cx.tier);
             let mut rng = cx.rng.fork(11);
+            // one case in twelve: a screen at least 130 columns wide with the tab stops churned and
+            // walked before the reset, and walked again after it
+            let tab_case = rng.below(12) == 0;
+            if tab_case {
+                c = rng.range(130, 140);
+                l = rng.range(1, 3);
+            }
             if !cx.begin_group(&format!("ris {}x{}", c, l)) {
                 if cx.past_only_group() {
                     break;
@@ -672,8 +679,40 @@ impl Check for C15Check {
             }
             let tn = rng.usize(if big { 6 } else { 25 });
             let t = no_restore(mixed_history(&mut rng, c, l, tn, true));
+            if tab_case {
+                for _ in 0..2 + rng.below(5) {
+                    let x = match rng.below(6) {
+                        0 => 1,
+                        1 => 129,
+                        2 => c,
+                        3 => 8 * rng.range(0, c / 8) + 1,
+                        _ => rng.range(1, c),
+                    };
+                    h.push(Op::Api(Call::CursorToColumn(Some(x))));
+                    h.push(Op::Api(if rng.below(3) == 0 { Call::SetTabStop } else { Call::ClearTabStop(Some(0)) }));
+                    if rng.below(3) == 0 {
+                        h.push(Op::Api(Call::CarriageReturn));
+                        for _ in 0..1 + rng.below(17) {
+                            h.push(Op::Api(Call::Tab));
+                        }
+                    }
+                }
+                h.push(Op::Api(Call::CarriageReturn));
+                h.push(Op::Api(Call::Tab));
+            }
             let via_esc = rng.bool();
             let mut t = t;
+            if tab_case {
+                let mut walk = vec![Op::Api(Call::CarriageReturn)];
+                for _ in 0..18 {
+                    walk.push(Op::Api(Call::Tab));
+                }
+                walk.push(Op::Api(Call::CursorToColumn(Some(121))));
+                walk.push(Op::Api(Call::Tab));
+                for (i, o) in walk.into_iter().enumerate() {
+                    t.insert(i, o);
+                }
+            }
             // a rendition built up in two steps under a random reverse-video state right before
             // the reset, and the second step again right after it
             if rng.below(8) == 0 {
